@@ -69,6 +69,7 @@ MCFamilySensible ==
 \* Expected only ever demands things that exist, and a configuration that lists an existing
 \* non-redirect article expects its text
 ExpectedSane ==
+  last.k = "init" =>
   /\ ExpectedImages(cfg) \subseteq ImageTitles(W)
   /\ \A i \in DOMAIN cfg.book :
        LET s == Served(cfg.book[i]) IN
@@ -77,7 +78,7 @@ ExpectedSane ==
             => s.kind = "text" /\ s.page = cfg.book[i].title
 \* windows partition the complete answer (continuation loses and duplicates nothing)
 WindowsSane ==
-  \A it \in DOMAIN items : it.k = "UB" =>
+  \A it \in DOMAIN items : it.k = "UB" /\ it.pc = "new" =>
      LET S == UsedEntries(W, it.a[1], Tail(it.a)) IN
      /\ UNION {UsedWindow(W, it.a[1], Tail(it.a), k * RL, RL) : k \in 0..Cardinality(S)} = S
      /\ \A k \in 0..Cardinality(S) : Cardinality(UsedWindow(W, it.a[1], Tail(it.a), k * RL, RL)) <= RL
